@@ -8,7 +8,7 @@ import pandas as pd
 from .. import common, checklib
 from ..rtc import par
 
-LEVEL = "exploration"
+LEVEL = "proof"
 
 # (formula, variable that receives unseen levels, replacement level that was seen)
 CASES = [
@@ -222,4 +222,4 @@ def run(report, findings):
         "rule": "distinct (formula, variable with unseen values, placement, mode, matrix): 33 cases x 3 placements x 3 modes x {common, group} "
                 "compared with a reference evaluation in which the unseen values are replaced by seen ones, + 56 configuration stores",
         "samples": [list(c) for c in CASES[:3]] + [list(CASES[19])]})
-    report.assumptions = ["the reference for 'what the other entries would be' is the same frame with a seen level substituted"]
+    report.assumptions = list(dict.fromkeys(list(report.assumptions) + ["the reference for 'what the other entries would be' is the same frame with a seen level substituted"]))
